@@ -375,14 +375,20 @@ def run_projection(spec):
             M = M + M.conj().T
         if rng.random() < 0.2 and any(n):
             continue
+        if rng.random() < 0.45:
+            M = np.diag(np.diag(M))  # a term that is diagonal in the input basis (on-site potential)
+            counters["projection_diagonal_terms"] += 1
         A[n] = M
     if (0,) * n_par not in A:
         A[(0,) * n_par] = np.eye(N)
     vt = str(rng.choice(["dense", "sparse"]))
     enc = {n: (sparse.csr_array(M) if vt == "sparse" else M) for n, M in A.items()}
     vecs = []
+    sparse_vecs = bool(rng.random() < 0.5)  # the eigenvector matrices themselves as scipy sparse arrays
+    counters["projection_sparse_eigenvectors"] += int(sparse_vecs)
+    wrap = sparse.csr_array if sparse_vecs else (lambda x: x)
     for a, b in zip(bounds[:-1], bounds[1:]):
-        vecs.append(R[:, a:b] if hermitian else (R[:, a:b], L[:, a:b]))
+        vecs.append(wrap(R[:, a:b]) if hermitian else (wrap(R[:, a:b]), wrap(L[:, a:b])))
     try:
         S = operator_to_BlockSeries(enc, name="A", subspace_eigenvectors=tuple(vecs), hermitian=hermitian)
     except Exception as e:  # noqa: BLE001
